@@ -400,7 +400,7 @@ func keyByKind(kind string) (crypto.Signer, crypto.PublicKey) {
 		seed := sha256.Sum256([]byte("verif-ed"))
 		k := ed25519.NewKeyFromSeed(seed[:])
 		return k, k.Public()
-	case "edp32", "edp48", "edp63", "edp65", "edp96": // an ed25519.PrivateKey value of the wrong length
+	case "edp16", "edp32", "edp48", "edp63", "edp65", "edp96": // an ed25519.PrivateKey value of the wrong length
 		n, _ := strconv.Atoi(kind[3:])
 		seed := sha256.Sum256([]byte("verif-ed"))
 		k := ed25519.NewKeyFromSeed(seed[:])
@@ -409,6 +409,15 @@ func keyByKind(kind string) (crypto.Signer, crypto.PublicKey) {
 			raw = append(raw, 7)
 		}
 		return ed25519.PrivateKey(raw[:n]), k.Public()
+	case "edq16", "edq32", "edq48", "edq64", "edqn": // a POINTER to an ed25519.PrivateKey (a crypto.Signer too): 64 octets is a key
+		seed := sha256.Sum256([]byte("verif-ed"))
+		k := ed25519.NewKeyFromSeed(seed[:])
+		if kind == "edqn" {
+			return (*ed25519.PrivateKey)(nil), k.Public()
+		}
+		n, _ := strconv.Atoi(kind[3:])
+		raw := ed25519.PrivateKey(append([]byte{}, k...)[:n])
+		return &raw, k.Public()
 	case "edw31", "edw33": // an opaque Ed25519 key whose Public() is of the wrong length
 		n, _ := strconv.Atoi(kind[3:])
 		seed := sha256.Sum256([]byte("verif-ed"))
